@@ -130,8 +130,34 @@ Qed.
 
 Lemma run_ready_stable : forall tr s s' lb, run step s tr = Some s' -> lb_ready s lb -> lb_ready s' lb.
 Proof.
-  intros tr s s' lb H [b [Hb Hw]]. destruct (run_bal_stable _ _ _ _ _ H Hb) as [b' [H1 [_ [_ H2]]]].
-  exists b'. auto.
+  induction tr as [|e tr IH]; intros s s' lb H Hr; cbn in H.
+  - inversion H; subst. exact Hr.
+  - destruct (step s e) as [s1|] eqn:E; [|discriminate].
+    eapply IH; eauto. eapply ready_stable; eauto.
+Qed.
+
+Lemma run_bal_flags_stable : forall tr s s' lb b,
+  run step s tr = Some s' -> nget (bals s) lb = Some b ->
+  exists b', nget (bals s') lb = Some b' /\ b_cmd b' = b_cmd b /\ (b_restored b = true -> b_restored b' = true).
+Proof.
+  induction tr as [|e tr IH]; intros s s' lb b Hrun Hb; cbn in Hrun.
+  - inversion Hrun; subst. exists b. auto.
+  - destruct (step s e) as [s1|] eqn:E; [|discriminate].
+    destruct (bal_flags_stable _ _ _ _ _ E Hb) as [b1 [H1 [H2 H3]]].
+    destruct (IH _ _ _ _ Hrun H1) as [b2 [H5 [H6 H7]]].
+    exists b2. repeat split; auto; congruence.
+Qed.
+
+(** a deploy waits only on a balancer created by a command, hence never on a restored one *)
+Lemma step_waited_cmd : forall s tm a lb v s', Inv s ->
+  step s (mkEv tm a (KDeployWaited lb v)) = Some s' ->
+  exists b, nget (bals s) lb = Some b /\ b_cmd b = true /\ b_restored b = false.
+Proof.
+  intros s tm a lb v s' HI H. step_inv H; split_ands; try discriminate.
+  all: match goal with Hp : phase_is_waiting _ _ = true |- _ => apply phase_waiting_eq in Hp;
+         destruct (i_cmdlb _ HI _ _ (or_introl Hp)) as [b1 [Hb1 Hc1]] end.
+  all: rewrite Heqo0 in Hb1; inversion Hb1; subst b1; exists b; split; [reflexivity|]; split; auto.
+  all: destruct (b_restored b) eqn:Er; auto; destruct (i_rest _ HI _ _ Heqo0 Er); congruence.
 Qed.
 
 (** a balancer whose wait failed is never "ready", before or after *)
@@ -144,20 +170,23 @@ Proof.
   destruct (step_waited _ _ _ _ _ _ H2) as [b [b' [Hb [Hn [Hb' [Hw' _]]]]]].
   destruct (le_lt_dec j i) as [Hle|Hlt].
   - pose proof (state_between _ step _ _ _ _ _ _ Hle Hj H1) as Hm.
-    destruct (run_ready_stable _ _ _ _ Hm Hr) as [b2 [Hb2 Hw2]]. congruence.
+    destruct (run_ready_stable _ _ _ _ Hm Hr) as [b2 [Hb2 [Hw2|Hr2]]]; [congruence|].
+    destruct (step_waited_cmd _ _ _ _ _ _ (inv_run _ _ H1) H2) as [b3 [Hb3 [_ Hnr]]]. congruence.
   - assert (Hi' : nth_error (firstn j tr) i = Some (mkEv tm a (KDeployWaited lb false))) by (rewrite nth_error_firstn_lt; auto).
     destruct (run_split step _ _ _ _ _ Hj Hi') as [ti [ti' [G1 [G2 G3]]]].
     rewrite firstn_firstn in G1. replace (Nat.min i j) with i in G1 by lia. rewrite H1 in G1. inversion G1; subst ti.
     rewrite H2 in G2. inversion G2; subst ti'.
     destruct (run_bal_stable _ _ _ _ _ G3 Hb') as [b2 [Hb2 [_ [_ Hw2]]]].
     destruct Hr as [b3 [Hb3 Hw3]]. rewrite Hb2 in Hb3. inversion Hb3; subst b3.
-    rewrite (Hw2 _ Hw') in Hw3. discriminate.
+    destruct Hw3 as [Hw3|Hr3].
+    + rewrite (Hw2 _ Hw') in Hw3. discriminate.
+    + destruct (i_rest _ (inv_run _ _ Hj) _ _ Hb2 Hr3) as [_ Hnone]. rewrite (Hw2 _ Hw') in Hnone. discriminate.
 Qed.
 
 (** the state just before a claim: the target's balancer has been waited for successfully *)
 Lemma claim_ready : forall tr s j t r jn lb ts,
   run step init tr = Some s -> at_ tr j (KClaim t r) -> at_ tr jn (KLbNew lb ts) -> In t ts ->
-  jn < j /\ exists sj b, run step init (firstn j tr) = Some sj /\ nget (bals sj) lb = Some b /\ b_ts b = ts /\ b_waited b = Some true.
+  jn < j /\ exists sj b, run step init (firstn j tr) = Some sj /\ nget (bals sj) lb = Some b /\ b_ts b = ts /\ bal_ready b.
 Proof.
   intros tr s j t r jn lb ts Hrun [[tm a k] [Hj Hk]] [[tm' a' k'] [Hn Hk']] Hin. cbn in Hk, Hk'. subst k k'.
   destruct (lt_eq_lt_dec jn j) as [[Hlt|Heq]|Hgt].
@@ -184,16 +213,21 @@ Proof.
     destruct (step_lbnew _ _ _ _ _ _ H5) as [_ [Hfr _]]. rewrite (Hfr _ Hin) in Hx2. discriminate.
 Qed.
 
+(** the claim is licensed EITHER by the deploy (every target probed successfully, the wait succeeded)
+    OR by a restore (an earlier KRestored names the balancer; every target was presumed healthy by it) *)
 Theorem forward_after_all_probes : forall tr s i t r jn lb ts,
   run step init tr = Some s -> at_ tr i (KClaim t r) -> at_ tr jn (KLbNew lb ts) -> In t ts ->
   jn < i /\
-  (forall t', In t' ts -> exists j prev new, j < i /\ at_ tr j (KProbeApply t' true prev new)) /\
-  (exists j, j < i /\ at_ tr j (KDeployWaited lb true)).
+  (((forall t', In t' ts -> exists j prev new, j < i /\ at_ tr j (KProbeApply t' true prev new)) /\
+    (exists j, j < i /\ at_ tr j (KDeployWaited lb true)))
+   \/
+   ((exists j sv act roll, j < i /\ at_ tr j (KRestored sv act roll) /\ (act = Some lb \/ roll = Some lb)) /\
+    (forall t', In t' ts -> exists j, j < i /\ at_ tr j (KStateSet t' TAdding THealthy)))).
 Proof.
   intros tr s i t r jn lb ts Hrun Hc Hn Hin.
   destruct (claim_ready _ _ _ _ _ _ _ _ Hrun Hc Hn Hin) as [Hlt [si [b [Hsi [Hb [Hts Hw]]]]]].
   pose proof (inv_run _ _ Hsi) as HI. pose proof (hinv_run _ _ Hsi) as HH.
-  split; auto. split.
+  split; auto. destruct Hw as [Hw|Hr]; [left|right]; split.
   - intros t' Hin'. rewrite <- Hts in Hin'.
     destruct (i_ts _ HI _ _ _ Hb Hin') as [x [Hx _]].
     pose proof (i_waited _ HI _ _ _ _ Hb Hw Hin' Hx) as Hwt.
@@ -202,6 +236,12 @@ Proof.
     destruct (h_pok _ _ HH _ _ Hx Hpk) as [prev [new Hh]].
     destruct (has_firstn_at _ _ _ Hh) as [j [Hj Ha]]. eauto.
   - apply has_firstn_at. eapply (h_waited _ _ HH); eauto.
+  - destruct (h_restored _ _ HH _ _ Hb Hr) as [sv [act [roll [Hh Ho]]]].
+    destruct (has_firstn_at _ _ _ Hh) as [j [Hj Ha]]. exists j, sv, act, roll. auto.
+  - intros t' Hin'. rewrite <- Hts in Hin'.
+    destruct (i_ts _ HI _ _ _ Hb Hin') as [x [Hx _]].
+    pose proof (i_restp _ HI _ _ _ _ Hb Hr Hin' Hx) as Hp.
+    apply has_firstn_at. eapply (h_presumed _ _ HH); eauto.
 Qed.
 
 Theorem failed_deploy_inert : forall tr s i lb,
@@ -213,14 +253,13 @@ Proof.
   intros tr s i lb Hrun Hf. repeat split.
   - intros j sv sl rep [[tm a k] [Hj Hk]]. cbn in Hk; subst k.
     destruct (run_split step _ _ _ _ _ Hrun Hj) as [sj [sj' [H1 [H2 _]]]].
-    destruct (step_slot _ _ _ _ _ _ _ _ H2) as [b Hb].
-    exact (ready_not_failed _ _ _ _ _ _ Hrun H1 (ex_intro _ b Hb) Hf).
+    destruct (step_slot _ _ _ _ _ _ _ _ H2) as [b [Hb Hw]].
+    exact (ready_not_failed _ _ _ _ _ _ Hrun H1 (ex_intro _ b (conj Hb (or_introl Hw))) Hf).
   - intros j r sv [[tm a k] [Hj Hk]]. cbn in Hk; subst k.
     destruct (run_split step _ _ _ _ _ Hrun Hj) as [sj [sj' [H1 [H2 _]]]].
     destruct (step_pick _ _ _ _ _ _ _ H2) as [x [Hx Hs]].
     pose proof (inv_run _ _ H1) as HI.
-    destruct (i_slot _ HI _ _ _ Hx Hs) as [b Hb].
-    exact (ready_not_failed _ _ _ _ _ _ Hrun H1 (ex_intro _ b Hb) Hf).
+    exact (ready_not_failed _ _ _ _ _ _ Hrun H1 (i_slot _ HI _ _ _ Hx Hs) Hf).
   - intros j jn ts t r Hn Hin Hc.
     destruct (claim_ready _ _ _ _ _ _ _ _ Hrun Hc Hn Hin) as [_ [sj [b [Hsj [Hb [_ Hw]]]]]].
     exact (ready_not_failed _ _ _ _ _ _ Hrun Hsj (ex_intro _ b (conj Hb Hw)) Hf).
@@ -348,6 +387,8 @@ Proof.
     unfold phase_proceeding in *. destruct (nget (cmds s) n) as [[]|]; discriminate.
   - exfalso. cbn in Heqo. inj_some. destruct Hq as [Hq|[? [? Hq]]]; [|discriminate Hq].
     split_ands. match goal with H : fresh _ _ = true |- _ => apply fresh_none in H; rewrite H in Hq end. discriminate.
+  - (* KRestored is never a command's step *)
+    exfalso. cbn in Heqo. discriminate.
 Qed.
 
 Lemma firstn_S_nth : forall A (l : list A) i x, nth_error l i = Some x -> firstn (S i) l = firstn i l ++ [x].
